@@ -8,14 +8,14 @@ CONSTANTS
   SubIds = {1}
   Dev = {}
   PeerMenu = {}
-  MaxPeer = 3
+  MaxPeer = 4
   MaxPush = 1
   Faults = {"sendErr"}
   RespShapes <- RS_gen
   Abandon = FALSE
   MaxArr = 3
   ArrMenu = {}
-  ScriptLen = 6
+  ScriptLen = 7
   HoldGate = 1
   AbandonGate = 1
   FaultGate = 1
@@ -26,5 +26,5 @@ INIT DInit
 NEXT DNext
 VIEW GView
 CONSTRAINT Prune
-INVARIANTS G_AbandonThenAccept G_SendErrOnUnsub G_CloseThenLeave G_DuplicateSubId
+INVARIANTS G_ReuseThenDropEnded G_AbandonThenAccept G_SendErrOnUnsub G_CloseThenLeave G_DuplicateSubId
 CHECK_DEADLOCK FALSE
